@@ -21,7 +21,7 @@ BOUNDS = {'quick': dict(defs=DEFS[:7] + ['x'], start=NAMES[:2]), 'thorough': dic
 def describe(tier):
     b = BOUNDS[tier]
     return dict(
-        rule='Built-in tables: every key of Config({syntax: s}).snippets for s in html, xsl, pug x contexts [., .>k, p>., p>.+q, (.)*2] and, '
+        rule='Built-in tables: every `|`-separated name of every raw key is in the effective table with its value; every key of Config({syntax: s}).snippets for s in html, xsl, pug x contexts [., .>k, p>., p>.+q, (.)*2] and, '
              'for simple definitions name[attrs]/?, [..x, .[data-k=v], .{t}, .*2>k, ./] x {default, reverseAttributes, a call config that restates one variable and one option}: '
              'expand(C[alias]) == expand(C[(definition)]). User tables: all %d^3 tables {ka, kb, kc} -> definitions %s x start names %s: '
              'terminates, resolve nesting <= 3 (+1 for the call that hits the guard / a non-snippet), alias == definition when acyclic, and for every table '
@@ -62,8 +62,24 @@ def check_multi(defn, extra, rev, repeat):
     return []
 
 
+def raw_names():
+    "(syntax, name, raw value) for every `|`-separated name of every key of the raw built-in tables (split here, not by emmet)"
+    from emmet.snippets import html as H_, xsl as X_, pug as P_
+    for syn, mod in (('html', H_), ('xsl', X_), ('pug', P_)):
+        for k, v in mod.snippets.items():
+            for name in k.split('|'):
+                yield syn, name, v
+
+
+def check_raw_name(syn, name, value):
+    got = Config({'syntax': syn}).snippets.get(name, '<absent>')
+    if got != value:
+        return [('builtin:listed-name-not-in-the-effective-table', dict(syntax=syn, name=name, expected=value, actual=got))]
+    return []
+
+
 def shards(tier):
-    out = [dict(kind='multi')]
+    out = [dict(kind='multi'), dict(kind='raw-names')]
     for syn in ('html', 'xsl', 'pug'):
         keys = sorted(Config({'syntax': syn}).snippets)
         for i in range(0, len(keys), 12):
@@ -173,6 +189,17 @@ def check_user(table, start):
             r = ex(a, dict(cfg))
             if r != want:
                 bad.append(('user-table:alias-depends-on-its-context:%s' % name, dict(table=table, abbr=a, actual=r, expected=want)))
+    # the caller edits its own table in place between two calls: the alias follows the new definition
+    if table[start] != 'x>y':
+        edited = dict(table)
+        edited[start] = 'x>y'
+        ref = ex(start, {'snippets': dict(edited), 'options': {'output.format': False}})       # reference first, with a table of its own
+        live = {'snippets': dict(table), 'options': {'output.format': False}}
+        ex(start, live)
+        live['snippets'][start] = 'x>y'
+        r = ex(start, live)
+        if r != ref:
+            bad.append(('user-table:edited-in-place-not-seen', dict(table=table, start=start, new_definition='x>y', actual=r, expected=ref)))
     if not cyclic_from(table, start):
         for ctx_name, a, dd in (('alone', start, '(%s)' % table[start]), ('as-child-with-sibling', 'p>%s+q' % start, 'p>(%s)+q' % table[start]),
                                 ('repeated-group', '(%s)*2' % start, '((%s))*2' % table[start])):
@@ -202,6 +229,18 @@ def check_builtin(syn, key, D, ctx_name, a, dd, rev):
 
 
 def run_shard(shard, ctx, tier):
+    if shard['kind'] == 'raw-names':
+        for syn, name, value in raw_names():
+            ctx.tick((syn, name))
+            ctx.states += 1
+            ctx.transitions += 1
+            ctx.evals += 1
+            ctx.validated += 1
+            ctx.nontrivial += 1
+            for cls, d in check_raw_name(syn, name, value):
+                ctx.violation(cls, dict(kind='raw-name', syntax=syn, name=name, value=value), d)
+        ctx.sample(dict(kind='raw-names'))
+        return
     if shard['kind'] == 'multi':
         for di, defn in enumerate(MULTI_DEFS):
             for extra in MULTI_EXTRAS:
@@ -264,6 +303,8 @@ def run_shard(shard, ctx, tier):
 
 
 def check_case(case):
+    if case['kind'] == 'raw-name':
+        return check_raw_name(case['syntax'], case['name'], case['value'])
     if case['kind'] == 'multi':
         return check_multi(MULTI_DEFS[case['defn']], case['extra'], case['reverse'], case['repeat'])
     if case['kind'] == 'user':
@@ -273,6 +314,8 @@ def check_case(case):
 
 
 def repro(case):
+    if case['kind'] == 'raw-name':
+        return 'from emmet.config import Config\nprint(Config({"syntax": %r}).snippets.get(%r))  # raw table lists this name\n' % (case['syntax'], case['name'])
     if case['kind'] == 'multi':
         return '# see check_multi in mc/props/c14.py: %r\n' % (case,)
     if case['kind'] == 'user':
